@@ -369,8 +369,15 @@ theorem transOne_core {s s' : St} (h : Core s) (p : CType × Key) (hr : transOne
       split at hr
       · simp only [Option.some.injEq] at hr; subst hr; exact h
       split at hr
-      · split at hr
-        · simp only [Option.some.injEq] at hr; subst hr; exact h
+      · -- a domain topology / cell connectivity: the construct is unchanged, its axes are re-set
+        split at hr
+        · split at hr
+          · rename_i hcond
+            simp only [Option.some.injEq] at hr
+            subst hr
+            simp only [Bool.and_eq_true] at hcond
+            exact core_restore h hc (by simpa using harr) (h.wf _ c hc) hcond.2
+          · cases hr
         · cases hr
       split at hr
       · cases hr
@@ -438,35 +445,6 @@ theorem insOne_core {s s' : St} (h : Core s) (axis : Key) (position : Nat) (da0 
           exact core_restore h hc (by simpa using harr)
             (insCon_wf (by simpa using hmod) (by simpa using hdim) hd (h.wf _ c hc) (by omega)) hchk
         · cases hr
-
-theorem transposeField_core {s : St} (h : Core s) (perm : Option (List Nat)) (constructs inplace : Bool) :
-    Core (transposeField true s perm constructs inplace).1 := by
-  unfold transposeField
-  split
-  · exact h
-  cases hd : s.data with
-  | none => exact h
-  | some shp =>
-    simp only
-    cases transposeIdx shp perm with
-    | none => exact h
-    | some iaxes =>
-      simp only
-      have hrl := relabel_core h hd inplace iaxes
-      cases hr : relabel true s inplace shp iaxes with
-      | mk s2 b =>
-        rw [hr] at hrl
-        cases b with
-        | false => exact hrl
-        | true =>
-          simp only
-          split
-          · exact hrl
-          cases hf : foldOpt transOne s2 (s2.cons.live.map (·.1)) with
-          | none => exact h
-          | some s3 =>
-            exact foldOpt_inv Core transOne (fun b a b' hb hba => transOne_core hb a hba) _ s2 s3 hrl hf
-
 
 theorem map_insertIdx' {α β} (f : α → β) (x : α) : ∀ (p : Nat) (l : List α), (l.insertIdx p x).map f = (l.map f).insertIdx p (f x) := by
   intro p
@@ -577,36 +555,5 @@ theorem insertField_core {s : St} (h : Core s) {a : Key} (ha : axSize s a = some
         exact core_field h rfl rfl rfl ⟨⟨fits_exist hfit, hfit⟩, rfl⟩
       · exact h
 
-
-theorem insertDimension_core {s : St} (h : Core s) (axis : Option Key) (position : Nat) (constructs inplace : Bool) :
-    Core (insertDimension true s axis position constructs inplace).1 := by
-  unfold insertDimension
-  split
-  · exact h
-  cases hk : insertAxisKey true s axis with
-  | none => exact h
-  | some sa =>
-    obtain ⟨s1, a⟩ := sa
-    obtain ⟨h1, ha⟩ := insertAxisKey_spec h hk
-    simp only
-    have hfld := insertField_core h1 ha position
-    cases hr : insertField true s1 a position with
-    | mk s3 b =>
-      rw [hr] at hfld
-      cases b with
-      | false =>
-        simp only
-        split
-        · exact hfld
-        · exact h
-      | true =>
-        simp only
-        split
-        · exact hfld
-        cases hf : foldOpt (insOne true a (if s1.dataAxes.isNone then 0 else position) (s1.dataAxes.getD [])) s3
-            (s3.cons.live.map (·.1)) with
-        | none => exact h
-        | some s4 =>
-          exact foldOpt_inv Core _ (fun b q b' hb hbq => insOne_core hb _ _ _ q hbq) _ s3 s4 hfld hf
 
 end Cfdm.Constructs
